@@ -529,6 +529,16 @@ def r01_11(ctx: Ctx) -> None:
               "what goes to the decoder is counted (after the split)", "BranchFilterDecoder.decompress does not add the length of what it decodes to `_fed` (after the hold-back split): "
               "the test 'more data is outstanding' is wrong from the second piece on", construct="fed count")
 
+    # the amount held back covers the look-ahead of every converter: the x86 converter examines the four bytes behind an E8/E9 opcode, the other
+    # branch converters work on units of four bytes - three bytes held back let a convertible instruction straddle the end of a piece unseen
+    hb = [n for n in ctx.prog.cls("BranchFilterDecoder", "compressor").node.body if isinstance(n, ast.Assign) and any(isinstance(t_, ast.Name) and t_.id == "HOLD_BACK" for t_ in n.targets)] \
+        if ctx.prog.has_cls("BranchFilterDecoder") else []
+    for n in hb:
+        v = n.value.value if isinstance(n.value, ast.Constant) else None
+        ctx.check(isinstance(v, int) and v >= 4, "R01.11", ctx.prog.func("compressor", "BranchFilterDecoder.decompress"), n, "HOLD_BACK covers a whole conversion unit (>= 4 bytes)",
+                  f"HOLD_BACK = {v}: fewer bytes are held back than the branch converters look at (x86: the four bytes behind the opcode; ARM, PowerPC, SPARC: units of four): a folder "
+                  "that ends in two consecutive convertible instructions with tiny last members is decoded wrongly (CrcError on a valid archive)", construct="HOLD_BACK below the unit size")
+
 
 def r01_12(ctx: Ctx) -> None:
     """library contract of pyppmd's encoder, found by round-tripping (no test of the suite packs hardly compressible data with PPMd): one
@@ -599,6 +609,8 @@ def r01_14(ctx: Ctx) -> None:
 
 
 def run(ctx: Ctx) -> None:
+    from . import c05 as _c05r
+    _c05r.r05_8(ctx, shared.read_closure(ctx))  # short reads (volume boundaries) are completed, and an end of file is noticed, where the decoder fetches its input
     r01_17(ctx)
     from . import c07 as _c07o
     _c07o.r07_21(ctx, rule="R01.16")  # what the encoder is told, the header says
